@@ -12,14 +12,14 @@ import (
 
 // C26 — the policer never drops a local copy that may be needed (structure of the removal decision).
 func init() {
-	register(&Check{ID: "C26", Level: "other", Pkgs: []string{"./pkg/services/policer"}, Run: runC26})
+	register(&Check{ID: "C26", Level: "other", Pkgs: []string{"./pkg/services/policer", "./pkg/services/replicator"}, Run: runC26})
 }
 
 const polP = "pkg/services/policer."
 const polT = "(*pkg/services/policer.Policer)."
 
 func runC26(p *core.Prog, r *core.Report) {
-	r.Explain = "Decides the structure of the policer's removal decisions, on all CFG paths: (R1) an EC part is dropped only after a more optimal node answered the header request without error, or after the replication task reported a successful move; a more optimal node under maintenance forces a hold; (R2) what counts as a copy: in processNodes the shortage is decreased only for the local node, for a node under maintenance (which also bumps the unchecked-copies counter that forces keeping the local copy) or after a header request to that node succeeded — never from a cached status alone; a node is recorded as a CONFIRMED holder only after such a success or by the replicator's success callback; holders taken on trust (maintenance) are recorded separately and do not satisfy the 'somebody stores the object' test that lets an off-container node drop its replica; (R3) the redundant-copy removal in processObject is reached only when no rule needed the local copy, and for a node outside the container only if it is in the network map and a confirmed holder exists; (R4) the unconditional delete (default mark) is used only at the tabled policy-invalid sites, the first of which requires the container-not-found classification; (R5) LOCK/LINK objects require every node of the list, and shard-duplicate removal skips TOMBSTONE/LOCK/LINK. Not covered: the counting across several node lists and rules (value-level), concurrent policer/replicator schedules."
+	r.Explain = "Decides the structure of the policer's removal decisions, on all CFG paths: (R1) an EC part is dropped only after a more optimal node answered the header request without error, or after the replication task reported a successful move; a more optimal node under maintenance forces a hold; (R2) what counts as a copy: in processNodes the shortage is decreased only for the local node, for a node under maintenance (which also bumps the unchecked-copies counter that forces keeping the local copy) or after a header request to that node succeeded — never from a cached status alone; a node is recorded as a CONFIRMED holder only after such a success or by the replicator's success callback; holders taken on trust (maintenance) are recorded separately and do not satisfy the 'somebody stores the object' test that lets an off-container node drop its replica; (R3) the redundant-copy removal in processObject is reached only when no rule needed the local copy, and for a node outside the container only if it is in the network map and a confirmed holder exists; (R4) the unconditional delete (default mark) is used only at the tabled policy-invalid sites, the first of which requires the container-not-found classification; (R5) LOCK/LINK objects require every node of the list, and shard-duplicate removal skips TOMBSTONE/LOCK/LINK.; (R6) the replicator's success callback — the second form of confirmation — is invoked only after the send to that very node returned nil. Not covered: the counting across several node lists and rules (value-level), concurrent policer/replicator schedules."
 	fns := p.FuncsIn("pkg/services/policer")
 	// ---------------- R1 EC parts
 	r1 := r.Rule("C26.R1", "EC part dropped only after a more optimal node answered, or after a successful move; maintenance forces hold", 2)
@@ -236,4 +236,7 @@ func runC26(p *core.Prog, r *core.Report) {
 			return "DeleteRedundantCopies", ok && strings.HasSuffix(core.CalleeName(c), ").DeleteRedundantCopies")
 		}})
 	}
+	// ---------------- R6 what the policer takes for confirmation really is one
+	r6 := r.Rule("C26.R6", "the replicator reports a node as holding the copy only after the send to that node (or the local put) returned nil (shared with C27.R1)", 2)
+	replicatorReportsOnlyAcceptedCopies(p, r, r6)
 }
